@@ -306,6 +306,8 @@ theorem C10_companion_mfp (p q : Bytes) (hq : q ∈ mfpCompanions (some p)) :
       obtain ⟨j, hj, hjl⟩ := lastDash_of_mem hmem
       rw [lastDash_append hj]
       simp only
+      split
+      case isFalse => exact first_ok
       refine ⟨(smp ++ List.drop 3 (getBasename p)).take j ++ dotSet, ?_, ?_, ?_, ?_⟩
       · rw [List.take_append]
         simp [List.take_of_length_le]
